@@ -1443,6 +1443,10 @@ func (i SmallInt) ModuloBigInt(other *BigInt) (Value, Value) {
 		return (i % oSmall).ToValue(), Undefined
 	}
 
+	if i == MinSmallInt && other.ToGoBigInt().CmpAbs(big.NewInt(MinSmallInt)) == 0 {
+		// |other| == |i| == 2**63, the only divisor outside the SmallInt range that is not larger in magnitude
+		return SmallInt(0).ToValue(), Undefined
+	}
 	return i.ToValue(), Undefined
 }
 
